@@ -511,7 +511,10 @@ fn run_job(job: &JobSpec, env: &WorkerEnv, sched: &Arc<Sched>, tid: usize, multi
             replace_ticks: 0,
             live0: simenv::live_bytes(),
             // parse trees and ASTs are proportional to the input: the cap grows with it
-            mem_cap: MEM_CAP_BYTES + 4096 * job.source.0.len() as isize,
+            mem_cap: match std::env::var("SIMC_MEM_CAP_MB").ok().and_then(|v| v.parse::<isize>().ok()) {
+                Some(mb) => mb << 20,
+                None => MEM_CAP_BYTES + 4096 * job.source.0.len() as isize,
+            },
             mem_exceeded: false,
             ticks: 0,
             sites: Vec::new(),
